@@ -144,7 +144,9 @@ CLAIMS = {
          "branches of the latter) are the C01 jets of the rules' formulas, i.e. the true derivatives (C12_grad_linear, "
          "C12_grad_log_linear, C12_grad_zero_rate), and vanish for nodes outside the interval (C12_local); at second order "
          "value, gradient and Hessian of each smooth rule on Dual2 nodes are, along every direction of two variable names, "
-         "the C02 2-jet of the rule's formula (C12_hess_linear, C12_hess_log_linear, C12_hess_zero_rate).",
+         "the C02 2-jet of the rule's formula (C12_hess_linear, C12_hess_log_linear, C12_hess_zero_rate). A float-noded curve "
+         "built directly at order k is the curve built at order 0 and then switched (C12_construction_routes_agree); both "
+         "routes - the Python-facing constructor and the public CurveDF::try_new + set_ad_order - are driven by the run.",
     design_ref="DESIGN.md §3 C12",
     note=_corr + "theorems over ℝ; f64 rounding modelled.",
     technique="Lean 4 proof over state-machine model of set_ad_order + differential correspondence"),
